@@ -15,17 +15,19 @@ PART = {
     fidelity={"Impl.Reader": "exact (open paths, get_column, page loaders incl. bounds checks, CRC, decompression "
                              "dispatch, v1 page decoding, dictionary pages; GZIP/ZSTD by library contract)",
               "Impl.Reader + Impl.ColumnReader": "tied on every generated file to the real reader's output"},
-    rule=_RULE_FILE + "; C01's own predicate is evaluated twice: C side (p_roundtrip) and in the driver "
-         "(readback_is_intended_table: the r<g>_<c> fields against the table the history intends)",
+    rule=_RULE_FILE + "; C01's own predicate is evaluated three times: C side (p_roundtrip), in the driver against "
+         "Impl.Writer.readerTableOf = the right-hand side of the theorem C01_roundtrip (readback_is_readerTableOf: row groups, "
+         "num_rows, definition levels, dense values) and against the independently written rule of harness/ops_file.c "
+         "(readback_is_intended_table); tie of the theorem's left-hand side: Impl.Reader.readAll on the real bytes = the real "
+         "reader's table, three modes (reader_model_readAll_<mode>)",
     assumptions=["fwrite/fread are identity on bytes", "GZIP/ZSTD pages by library contract (not read by the model)",
                  "reader half proved up to chunk level (a chunk as the writer lays it out -> page iteration -> column "
                  "reader, any mode, any consumption history) under RecOk: the page records are what C05_pages_chain / "
                  "C05_written_table say they are, their content has the page builder's shape for a flat column (PageShape) "
                  "and fits the C size limits (HdrFits, page header <= 256 bytes); codecs UNCOMPRESSED/SNAPPY/LZ4/LZ4_RAW",
-                 "not composed to file level: footer -> openFile/buildSchema/getColumn for the writer's footer, chunk offsets "
-                 "from GroupsAt, and PageShape as a writer invariant are missing, so C01_roundtrip (readAll (fileOf h) = "
-                 "tableOf h) is open; the file-level round trip is established per generated history on the real code and "
-                 "on both models"],
+                 "composed to file level by the `compose` part (Properties/C01/Roundtrip.lean: C01_roundtrip); RecOk is "
+                 "derived there from the writer's invariants, and generalised to any codec tag (RecOkL: the stored body "
+                 "decompresses, by theorem or by library contract)"],
     trusted_base=[],
     text="reader part: carquet's reader from bytes to decoded pages (three open paths, get_column with its validation, "
          "page loaders with every bounds check, CRC, decompression, level/PLAIN/dictionary decoding) is modelled "
@@ -39,9 +41,8 @@ PART = {
          "page iteration over a written chunk delivers the writer's pages in order, none lost or repeated; and any "
          "history of read/skip/has_next/remaining/re-create calls on the column reader of that chunk returns what the "
          "index cursor returns over the written rows, whose levels and dense values are the page builders' content "
-         "(pagesData of C05_written_table). The universally quantified file-level round-trip theorem (footer and "
-         "chunk offsets composed in) is not proved.",
-    level_note="Lean kernel (page and chunk level, reader half); harness tie of writer model (bytes) and reader model (values) + property predicate on the real code; no file-level theorem",
+         "(pagesData of C05_written_table). The file-level round-trip theorem built on these is C01_roundtrip (compose part).",
+    level_note="Lean kernel (page and chunk level, reader half); harness tie of writer model (bytes) and reader model (values) + property predicate on the real code",
     technique="Lean 4 proof: page body (RLE levels, PLAIN via C11), codecs (C09), page header via the Thrift table framework of C13 (writer's hand-written bytes = what the C parser reads, for any bytes behind), induction over the pages of a chunk, C02 refinement for the consumption pattern; + exact executable models of writer and reader tied to the C code by differential execution of whole files",
   ),
   "C03": dict(
